@@ -288,8 +288,8 @@ def mon_hist(r, pid):
                 if l != list(range(1, len(l) + 1)):
                     return "step %d: ORDERED channel %s received sequences %s (must be 1,2,3,... without gaps)" % (i, key, l)
             for key, l in seqs_ack.items():
-                if l != sorted(l) or len(set(l)) != len(l):
-                    return "step %d: ORDERED channel %s acknowledged out of order: %s" % (i, key, l)
+                if l != list(range(1, len(l) + 1)):
+                    return "step %d: ORDERED channel %s processed acknowledgements %s (must be 1,2,3,... in order without gaps)" % (i, key, l)
         # NOOP / error leave the chain's packet store and application state unchanged
         if pid in ("C01", "C03", "C05", "C06", "C08") and s["out"] in ("noop", "err") and prev_proj[ci] is not None:
             if pj != prev_proj[ci]:
